@@ -326,7 +326,7 @@ impl Monitor for C16 {
         "C16"
     }
     fn gens(&self, tier: Tier) -> Vec<(&'static str, u64)> {
-        vec![("values", tier.pick(6000, 150_000)), ("bookkeeping", tier.pick(3000, 60_000)), ("gradients", tier.pick(1500, 30_000))]
+        vec![("values", tier.pick(90_000, 1_800_000)), ("bookkeeping", tier.pick(45_000, 900_000)), ("gradients", tier.pick(22_500, 450_000))]
     }
     fn rule(&self) -> &'static str {
         "networks of depth 2..7 in which every layer input has the same element count (flat dense chains, spatial chains of 'same' convolutions / deconvolutions / 1x1 pools / deconvolution+pool pairs, mixed flat<->spatial chains on r*r elements). values: 1..2 connections drawn from ALL index pairs a <= b with equal counts (sources and targets disjoint), accumulation = case index mod 5; predict vs reference network where layer b processes combine(ordinary input, input fed to a) (reshaped row-major), within the running f32 bound. bookkeeping: scripts of 2..4 connect() calls biased towards same-target, same-source and chained pairs; after every call the prediction must equal the reference containing exactly the accepted connections (either reading of 'input fed to a' for chains), a call with a new source and a new target must be accepted, a discarded earlier connection is identified by re-evaluating the reference without it. gradients: additive accumulation, hooked backward vs dual-number derivative of the MSE of the reference WITH the skips. Distinct = distinct (network, connections | script) descriptors."
